@@ -1,0 +1,15 @@
+//go:build verif
+
+package dkv
+
+// Accessors for the C07/C18 verification harness (read-only views of unexported state).
+
+// VerifMemtableCount returns the number of memtables in the queue (sealed + the active one).
+func (db *DB) VerifMemtableCount() int {
+	return len(db.mtables.Sealed()) + 1
+}
+
+// VerifTableCounts returns the number of tables per level of the current level list.
+func (db *DB) VerifTableCounts() []int {
+	return db.currentSSTables().TableCounts()
+}
